@@ -48,7 +48,7 @@ pub fn checks() -> Vec<Check> {
             level: "exploration",
             classes: vec!["c01"],
             scenarios: scenarios(),
-            quick: (40_000, 45),
+            quick: (120_000, 45),
             thorough: (2_000_000, 600),
             rule: RULE,
             assumptions: vec![
@@ -65,7 +65,7 @@ pub fn checks() -> Vec<Check> {
             level: "exploration",
             classes: vec!["flow"],
             scenarios: scenarios(),
-            quick: (40_000, 45),
+            quick: (120_000, 45),
             thorough: (2_000_000, 600),
             rule: RULE,
             assumptions: vec![
@@ -81,7 +81,7 @@ pub fn checks() -> Vec<Check> {
             level: "exploration",
             classes: vec!["c03"],
             scenarios: scenarios(),
-            quick: (40_000, 45),
+            quick: (120_000, 45),
             thorough: (2_000_000, 600),
             rule: RULE,
             assumptions: vec![
